@@ -34,23 +34,35 @@ var govcTotalDocs = []string{
 
 var govcTotalURLs = []string{"", "http://ⱥ/x", "http://example.com/a/b/", "http://example.com/?page=1", "mailto:x@y", "http://example.com:8080/%2F/x?y=%zz"}
 
+var govcTotalEvals, govcTotalNontrivial int
+
+func govcTotalKey(what string) string {
+	return strings.NewReplacer(" ", "_", "\"", "", "<", "", ">", "", "(", "", ")", "").Replace(what)
+}
+
 func govcCheckTotal(t *testing.T, what string, f func() (*Result, error)) {
+	govcTotalEvals++
 	defer func() {
 		if r := recover(); r != nil {
-			t.Errorf("%s: panic: %v", what, r)
+			t.Errorf("GOVC-FAIL %s :: %s: panic: %v", govcTotalKey(what), what, r)
 		}
 	}()
 	res, err := f()
 	if err == nil {
+		govcTotalNontrivial++
 		if res == nil || res.Node == nil || res.Node.Type != html.ElementNode || res.Node.Data != "div" {
-			t.Errorf("%s: panic-free but ill-formed result (node %v)", what, res)
+			t.Errorf("GOVC-FAIL %s :: %s: panic-free but ill-formed result (node %v)", govcTotalKey(what), what, res)
 		}
 	} else if res != nil {
-		t.Errorf("%s: panic-free but both error and result returned", what)
+		t.Errorf("GOVC-FAIL %s :: %s: panic-free but both error and result returned", govcTotalKey(what), what)
 	}
 }
 
 func TestGovcTotalityReplay(t *testing.T) {
+	defer func() {
+		fmt.Printf("GOVC-CASES evaluations=%d distinct_nontrivial=%d rule=%s\n", govcTotalEvals, govcTotalNontrivial, "14 documents (fragments, odd roots, hostile pagers) x 6 page URLs x 2 algorithms x {ApplyForReader, every sub-element and detached clone as root, children of the document node, nil options} + hand-built nodes; non-trivial = a result (not an error) was returned")
+		fmt.Printf("GOVC-SAMPLE Apply on every element of %q as root\n", govcTotalDocs[1])
+	}()
 	for di, src := range govcTotalDocs {
 		for _, rawURL := range govcTotalURLs {
 			for _, algo := range []PaginationAlgo{PrevNext, PageNumber} {
